@@ -58,13 +58,21 @@ def parseTLV (tag : UInt8) : Bytes → Option (Bytes × Bytes)
 structure Msg where
   message : Bytes
   realm : Bytes            -- empty = absent
-  flags : Option Nat       -- dclocator-hint, 0 … 127 when present
+  flags : Option Bytes     -- dclocator-hint: the content octets of its INTEGER (`intOk`) when present
 deriving Repr, DecidableEq
 
 def realmPart (realm : Bytes) : Bytes := if realm = [] then [] else tlv 0xA1 (tlv 0x1B realm)
 
-def flagsPart : Option Nat → Bytes
-  | some f => tlv 0xA2 (tlv 0x02 [u8 f])
+/-- content octets of a DER INTEGER that fits Go's `int`: 1 … 8 octets, minimally encoded (the
+    first nine bits are neither all zero nor all one) -/
+def intOk (c : Bytes) : Bool :=
+  match c with
+  | [] => false
+  | [_] => true
+  | a :: b :: _ => decide (c.length ≤ 8) && !(a == 0x00 && decide (b < 128)) && !(a == 0xFF && decide (b ≥ 128))
+
+def flagsPart : Option Bytes → Bytes
+  | some f => tlv 0xA2 (tlv 0x02 f)
   | none => []
 
 def encode (m : Msg) : Bytes :=
@@ -95,8 +103,8 @@ def decodeInner (b : Bytes) : Option Msg :=
         else match parseTLV 0xA2 r1 with
           | some (c, []) =>
             match whole 0x02 c with
-            | some [f] => if f < 128 then some ⟨msg, realm, some f.toNat⟩ else none
-            | _ => none
+            | some f => if intOk f then some ⟨msg, realm, some f⟩ else none
+            | none => none
           | _ => none
 
 /-- `decode`: the outer SEQUENCE must be the whole input (trailing data is an error) -/
@@ -136,7 +144,7 @@ def decodeInnerLax (b : Bytes) : Option Msg :=
     | some realm =>
       if r1 = [] then some ⟨msg, realm, none⟩
       else match laxWrapped 0xA2 0x02 r1 with
-        | some ([f], []) => if f < 128 then some ⟨msg, realm, some f.toNat⟩ else none
+        | some (f, []) => if intOk f then some ⟨msg, realm, some f⟩ else none
         | _ => none
 
 def decodeLax (b : Bytes) : Option Msg :=
